@@ -301,6 +301,9 @@ class Case:
         return "quant" if f in self.quant else "ord" if f in self.ordinal else "cat"
 
     def orders_copy(self):
+        """fresh copies of the user rankings; a case may hand them over as numpy arrays (a documented input type)"""
+        if self.meta.get("orders_as_array"):
+            return {k: np.array(list(v)) for k, v in self.values_orders.items()}
         return {k: list(v) for k, v in self.values_orders.items()}
 
     def describe(self, rows=6):
@@ -447,6 +450,8 @@ def single_feature_case(rng, ftype=None, kind=None, n=None, exact=True, with_dev
     c.y.index = idx
     c.meta.update({"ftype": ftype, "k_latent": int(k), "levels": levels, "nan_share": nan_share, "exact": bool(exact)})
     c.config = carver_config(rng, c.kind, max_n_mod_hi=max_n_mod_hi)
+    if c.values_orders and rng.random() < 0.2:
+        c.meta["orders_as_array"] = True
     if min_freq_choices:
         c.config["min_freq"] = pick(rng, min_freq_choices)
     if with_dev is None:
@@ -594,9 +599,16 @@ def multi_feature_case(rng, kind=None, n=None, n_feat=None, hostile=False, degen
                         meta["np_dtype"] = str(vals.dtype)
             cols[name] = vals
             metas[name] = meta
-    # a non-feature column that must never be touched
+    # non-feature columns that must never be touched (one of them shares its values with a qualitative feature)
     cols["untouched"] = rng.normal(0, 1, n)
+    qual_like = [k for k in cols if k in c.qual or k in c.ordinal]
+    if qual_like:
+        src = cols[qual_like[int(rng.integers(len(qual_like)))]]
+        pool = [v for v in src if isinstance(v, str)] or ["memo"]
+        cols["memo"] = np.array([pool[int(rng.integers(len(pool)))] if rng.random() < 0.8 else "free text" for _ in range(n)], dtype=object)
     X = pd.DataFrame(cols)
+    if c.values_orders and rng.random() < 0.25:
+        c.meta["orders_as_array"] = True
     noise = rng.normal(0, 1, n)
     s = score + noise
     if c.kind == "binary":
